@@ -56,7 +56,7 @@ theorem uponExisting_multi {N : Type} (cfg : Cfg) (A : Msg → Prop) (i : N) (c 
   exact nstep_of_ispec cfg m.height A i s m (processMsg cfg s m) hA hspec
 
 theorem ctrl_processMsg_multi {N : Type} (cfg : Cfg) (hcap : cfg.capacity = 2) (A : Msg → Prop) (i : N) (c : Ctrl) (m : Msg)
-    (hc : CInv c) (hA : A m) :
+    (hc : CInv c) (hA : m.ident = cfg.ident → A m) :
     CInv (c.processMsg cfg m).ct ∧ (∀ h, Blocked h c → Blocked h (c.processMsg cfg m).ct) ∧
     HStep cfg m.height A i c (c.processMsg cfg m).ct (bcasts (c.processMsg cfg m).outs)
       (deliverEvents cfg m.height i c (c.processMsg cfg m) m) ∧
@@ -64,10 +64,12 @@ theorem ctrl_processMsg_multi {N : Type} (cfg : Cfg) (hcap : cfg.capacity = 2) (
   unfold Ctrl.processMsg
   split
   · exact idle_multi cfg A i c m hc _
-  · split
+  · rename_i hid
+    have hid' : m.ident = cfg.ident := by simpa using hid
+    split
     · rename_i hdm
       by_cases hv : validateDecided cfg m = .ok ()
-      · exact uponDecided_multi cfg hcap A i c m hc hA hv hdm
+      · exact uponDecided_multi cfg hcap A i c m hc (hA hid') hv hdm
       · obtain ⟨r1, r2, r3⟩ := uponDecided_rejected cfg c m hv
         rw [r1]
         refine ⟨hc, fun _ hb => hb, .n (.idle rfl (by rw [r2]; rfl) ?_), fun _ _ => .same rfl⟩
@@ -86,7 +88,7 @@ theorem ctrl_processMsg_multi {N : Type} (cfg : Cfg) (hcap : cfg.capacity = 2) (
           unfold uponExistingInstanceMsg
           simp only [hf]
           exact idle_multi cfg A i c m hc _
-        | some s => exact uponExisting_multi cfg A i c m s hc hf hA hnd
+        | some s => exact uponExisting_multi cfg A i c m s hc hf (hA hid') hnd
 
 /-! ### `OnTimeout` -/
 
